@@ -388,6 +388,73 @@ class PauseStop(Monitor):
         self.fired.append(d)
 
 
+class WithItemsUniversal(Monitor):
+    """C07 invariants that need no knowledge of the case: evaluated after
+    every commit for every task execution that carries a with-items runtime
+    context.  (The C07 check adds the ones that need n / concurrency.)"""
+    name = 'with-items-any'
+    prop = 'C07'
+    TERMINAL = ('SUCCESS', 'ERROR', 'CANCELLED')
+
+    def __init__(self):
+        super(WithItemsUniversal, self).__init__()
+        self.seen = set()
+
+    def fire(self, msg, **detail):
+        key = (detail.get('mech'), detail.get('task'))
+        if key in self.seen:
+            return
+        self.seen.add(key)
+        super(WithItemsUniversal, self).fire(msg, **detail)
+
+    def on_event(self, ev, rec):
+        if ev['kind'] != 'SNAP':
+            return
+        rows = rec.rows
+        wi = [t for t in rows['task'].values()
+              if 'with_items' in (t.j('runtime_context') or {})]
+        if not wi:
+            return
+        kids = {}
+        for a in rows['action'].values():
+            if a.get('task_execution_id'):
+                kids.setdefault(a['task_execution_id'], []).append(a)
+        for x in rows['wf'].values():
+            if x.get('task_execution_id'):
+                kids.setdefault(x['task_execution_id'], []).append(x)
+        for t in wi:
+            self.evaluations += 1
+            ks = kids.get(t['id'], [])
+            per = {}
+            for k in ks:
+                idx = (k.j('runtime_context') or {}).get('index')
+                if k.get('accepted') or k['state'] not in self.TERMINAL:
+                    per.setdefault(idx, []).append(k)
+            for idx, live in per.items():
+                if len(live) > 1:
+                    self.fire('with-items task %s: item %s has %d accepted-'
+                              'or-unfinished child executions (%s)' % (
+                                  t['name'], idx, len(live),
+                                  [(k['state'], bool(k.get('accepted')))
+                                   for k in live]),
+                              mech='item-duplicated', task=t['name'])
+            if t['state'] in ('SUCCESS', 'ERROR'):
+                info = (t.get('state_info') or '')
+                if 'timed out' in info.lower() or \
+                        info.startswith('Failed to'):
+                    continue
+                running = [k for k in ks if k['state'] not in self.TERMINAL]
+                if running:
+                    self.fire('with-items task %s is %s while %d of its '
+                              'item executions are unfinished (%s)' % (
+                                  t['name'], t['state'], len(running),
+                                  sorted(str((k.j('runtime_context') or
+                                              {}).get('index'))
+                                         for k in running)),
+                              mech='completed-while-item-running',
+                              task=t['name'])
+
+
 class MonitorHealth(Monitor):
     """A crashing monitor or a recorder problem makes the case
     inconclusive, never 'held'."""
@@ -405,4 +472,5 @@ def _s(v):
 
 def universal(world_ref, exc_allow=()):
     return [ExceptionType(exc_allow), Quiescence(), Lifecycle(),
-            ExactlyOnce(), JoinMonitor(world_ref), PauseStop()]
+            ExactlyOnce(), JoinMonitor(world_ref), PauseStop(),
+            WithItemsUniversal()]
